@@ -84,7 +84,9 @@ func c12Setup(recv string, L int, flags uint64, format string, via int) slog.Log
 	if recv == "p" && via%2 == 0 {
 		slog.SetLevel(slog.Level(L))
 	} else {
-		if recv == "p" {
+		if recv == "p" && via%3 == 1 {
+			slog.SetLevel(slog.OffLevel) // the package level was switched off earlier; the default logger is levelled on its own
+		} else if recv == "p" {
 			slog.SetLevel(slog.InfoLevel) // the package level and the default logger's own level differ
 		}
 		if !byConstruction {
